@@ -187,6 +187,7 @@ def extrude(surf, amount):
     :return: The extruded surface
     :rtype: Volume
     """
+    surf = surf.clone()  # don't mess with the input surface
     surf.set_dimension(3)  # add z-components (if not already present)
     cp = []
     for controlpoint in surf:
